@@ -579,15 +579,15 @@ def r11(ctx, facts):
             if not ve and not raw:
                 continue
             n += 1
-            df = df_of(body, facts)
-            casts = 0
+            r.instance("duration-through-vint_encode", len(ve) >= 1 and not raw,
+                       "CqlDuration::serialize must emit months, days and nanoseconds through the codec's own 64-bit vint_encode: found %d vint_encode call sites and %d direct unsigned_vint_encode calls "
+                       "- a 32-bit zig-zag sign-extends into a 9-byte vint for |value| >= 2^30" % (len(ve), len(raw)), (raw or ve)[0].span)
+            # what is handed to vint_encode is an i64 obtained from the fields by widening only (no arithmetic on the way)
+            from ..util import field_slice
             for x in ve:
-                sd = body.single_def(x.args[0][1][0]) if x.args[0][0] in ("c", "m") else None
-                if sd and sd[0] == "stmt" and sd[3][0] == "cast" and body.ty(sd[3][3]) == "i32" and body.ty(sd[3][4]) == "i64":
-                    casts += 1
-            r.instance("duration-through-vint_encode", len(ve) == 3 and not raw and casts == 2,
-                       "CqlDuration::serialize must emit months, days (i32 widened to i64) and nanoseconds through the codec's own vint_encode: found %d vint_encode calls (%d on widened i32), %d direct unsigned_vint_encode calls "
-                       "- a 32-bit zig-zag sign-extends into a 9-byte vint for |value| >= 2^30" % (len(ve), casts, len(raw)), (raw or ve)[0].span)
+                _, cs, bins = field_slice(body, x.args[0])
+                odd = [(c_.decl or c_.name or "").split("::")[-1] for c_ in cs if (c_.decl or c_.name or "").split("::")[-1] not in ("from", "into", "next", "into_iter", "iter", "deref", "clone", "copied")]
+                r.instance("duration-term-is-the-field-widened", not bins and not odd, "a duration component reaches vint_encode through %s" % (odd or [b_[1] for b_ in bins]), x.span)
     if n == 0:
         raise AnchorLost("CqlDuration::serialize: no vint encoding found")
 
